@@ -54,9 +54,156 @@ let run_lap (args : sexp list) : sexp =
     L (A "r" :: List.rev !out)
   | _ -> raise (Bad "lap args")
 
+
+(* ---------- records ---------- *)
+let chr x = bytes_of_hex (atom x)
+let sx_chr c = A (hex_of_bytes c)
+let grec_of x = match lst x with
+  | [c; s; e; v] -> (chr c, { st = num s; en = num e; vl = num v })
+  | _ -> raise (Bad "grec")
+let sx_grec ((c, i) : n list * iv) = L [sx_chr c; an i.st; an i.en; an i.vl]
+let region_of x = match lst x with
+  | [c; s; e] -> ((chr c, num s), num e)
+  | _ -> raise (Bad "region")
+let sx_region (((c, s), e) : (n list * n) * n) = L [sx_chr c; an s; an e]
+let brec_of x = match lst x with
+  | [c; s; e; v] -> { b_chr = chr c; b_st = num s; b_en = num e; b_val = znum v }
+  | [c; s; e] -> { b_chr = chr c; b_st = num s; b_en = num e; b_val = Z0 }
+  | _ -> raise (Bad "brec")
+let sx_bool b = A (if b then "1" else "0")
+
+let with_panic (f : (sexp -> unit) -> unit) : sexp =
+  let out = ref [] in
+  (try f (fun x -> out := x :: !out) with Panicked -> out := A "panic" :: !out);
+  L (A "r" :: List.rev !out)
+
+(* ---------- gmap ---------- *)
+let run_gmap args = match args with
+  | [recs; ops] -> with_panic (fun emit ->
+      let m = ref (gcollect (List.map grec_of (tagged "recs" recs))) in
+      List.iter (fun o -> match o with
+        | L [A "ins"; c; s; e; v] -> m := ok (ginsert !m (grec_of (L [c; s; e; v])))
+        | L [A "find"; c; s; e] -> emit (L (A "h" :: List.map sx_grec (ok (gfind !m (chr c) (num s) (num e)))))
+        | L [A "isov"; c; s; e] -> emit (sx_bool (ok (gis_overlapped !m (chr c) (num s) (num e))))
+        | L [A "len"] -> emit (anat (glen !m))
+        | L [A "iter"] -> emit (L (A "h" :: List.map sx_grec (giter !m)))
+        | _ -> raise (Bad "gmap op")) (tagged "ops" ops))
+  | _ -> raise (Bad "gmap args")
+
+(* ---------- iset / imap ---------- *)
+let run_iset args = match args with
+  | [regs; ops] -> with_panic (fun emit ->
+      let s = iset_new (List.map region_of (tagged "regs" regs)) in
+      List.iter (fun o -> match o with
+        | L [A "get"; i] -> emit (match iset_get s (nat_ i) with Some r -> sx_region r | None -> A "none")
+        | L [A "len"] -> emit (anat (iset_len s))
+        | L [A "iter"] -> emit (L (A "it" :: List.map sx_region s.is_data))
+        | L [A "find"; c; a; b] -> emit (L (A "h" :: List.map sx_region (ok (iset_find s (chr c) (num a) (num b)))))
+        | L [A "findidx"; c; a; b] -> emit (L (A "h" :: List.map an (ok (iset_find_index s (chr c) (num a) (num b)))))
+        | L [A "findfull"; c; a; b] ->
+          emit (L (A "h" :: List.map (fun (r, i) -> L [sx_region r; an i]) (ok (iset_find_full s (chr c) (num a) (num b)))))
+        | L [A "isov"; c; a; b] -> emit (sx_bool (match ok (iset_find_full s (chr c) (num a) (num b)) with [] -> false | _ -> true))
+        | _ -> raise (Bad "iset op")) (tagged "ops" ops))
+  | _ -> raise (Bad "iset args")
+let run_imap args = match args with
+  | [recs; ops] -> with_panic (fun emit ->
+      let rs = List.map (fun x -> match lst x with [c; a; b; v] -> (region_of (L [c; a; b]), num v) | _ -> raise (Bad "imap rec")) (tagged "recs" recs) in
+      let s = imap_new rs in
+      List.iter (fun o -> match o with
+        | L [A "get"; i] -> emit (match List.nth_opt s.im_data (int_ i) with Some v -> an v | None -> A "none")
+        | L [A "len"] -> emit (A (string_of_int (List.length s.im_data)))
+        | L [A "find"; c; a; b] -> emit (L (A "h" :: List.map (fun (r, v) -> L [sx_region r; an v]) (ok (imap_find s (chr c) (num a) (num b)))))
+        | L [A "findidx"; c; a; b] -> emit (L (A "h" :: List.map (fun (_, i) -> an i.vl) (ok (gfind s.im_idx (chr c) (num a) (num b)))))
+        | _ -> raise (Bad "imap op")) (tagged "ops" ops))
+  | _ -> raise (Bad "imap args")
+
+(* ---------- coverage ---------- *)
+let run_cov args = match args with
+  | [regs; ops] -> with_panic (fun emit ->
+      let s = iset_new (List.map region_of (tagged "regs" regs)) in
+      let d = ref (Ok (cov_new s)) and sp = ref (Ok { sc_total = Z0; sc_map = [] }) in
+      List.iter (fun o ->
+        let step op = d := Ok (ok (cov_step s !d op)); sp := Ok (ok (scov_step s !sp op)) in
+        match o with
+        | L [A "ins"; c; a; b; k] -> step (CInsert (chr c, num a, num b, znum k))
+        | L [A "insat"; i; k] -> step (CInsertAt (nat_ i, znum k))
+        | L [A "reset"] -> step CReset
+        | L [A "get"] ->
+          let dv = ok !d and sv = ok !sp in
+          emit (L [A "dense"; az dv.c_total; A (string_of_int (List.length dv.c_counts)); L (List.map az dv.c_counts)]);
+          emit (L [A "sparse"; az sv.sc_total; anat (iset_len s); L (List.map az (ok (smap_as_vec sv.sc_map (iset_len s))))])
+        | _ -> raise (Bad "cov op")) (tagged "ops" ops))
+  | _ -> raise (Bad "cov args")
+
+let run_bcov args = match args with
+  | [b; regs; ops] -> with_panic (fun emit ->
+      let b = num b in
+      let s = iset_new (List.map region_of (tagged "regs" regs)) in
+      let d = ref (Ok (ok (bcov_new s b))) and sp = ref (Ok (ok (sbcov_new s b))) in
+      List.iter (fun o ->
+        let step op = d := Ok (ok (bcov_step s b !d op)); sp := Ok (ok (sbcov_step s b !sp op)) in
+        match o with
+        | L [A "ins"; c; x; y; k] -> step (BInsert (chr c, num x, num y, znum k))
+        | L [A "reset"] -> step BReset
+        | L [A "get"] ->
+          let dv = ok !d and sv = ok !sp in
+          emit (L [A "dense"; az dv.bc_total; L (List.map (fun r -> L (List.map az r)) dv.bc_counts)]);
+          emit (L [A "sparse"; az sv.sb_total; an sv.sb_len; L (List.map az (ok (smap_as_vec sv.sb_map (N.to_nat sv.sb_len))))])
+        | L [A "len"] ->
+          let dv = ok !d and sv = ok !sp in
+          emit (A (string_of_int (List.fold_left (fun a r -> a + List.length r) 0 dv.bc_counts))); emit (an sv.sb_len)
+        | L [A "regions"] ->
+          emit (L (A "regions" :: List.map (fun r -> L (List.map sx_region r)) (ok (bcov_regions s b))))
+        | L [A "getregion"; i] ->
+          emit (match ok (sb_get_region (ok !sp) s b (num i)) with Some r -> sx_region r | None -> A "none")
+        | L [A "getchrom"; i] ->
+          emit (match ok (sb_get_chrom (ok !sp) s b (num i)) with Some c -> sx_chr c | None -> A "none")
+        | _ -> raise (Bad "bcov op")) (tagged "ops" ops))
+  | _ -> raise (Bad "bcov args")
+
+(* ---------- algebra ---------- *)
+let sx_cmp = function Eq -> A "eq" | Lt -> A "lt" | Gt -> A "gt"
+let w64 = n_of_string "18446744073709551615"
+let run_alg args = match args with
+  | [_types; a; b; c] -> with_panic (fun emit ->
+      let a = brec_of a and b = brec_of b and c = brec_of c in
+      let ov x y = match boverlap x y with Some ((ch, s), e) -> L [sx_chr ch; an s; an e] | None -> A "none" in
+      emit (L [A "len"; an (blen a); an (blen b); an (blen c)]);
+      emit (L [A "ov"; ov a b; ov b a; ov a c; ov a a]);
+      emit (L [A "nov"; an (bn_overlap a b); an (bn_overlap b a); an (bn_overlap a c); an (bn_overlap a a)]);
+      emit (L [A "cmp"; sx_cmp (bcompare a b); sx_cmp (bcompare b a); sx_cmp (bcompare b c); sx_cmp (bcompare a c); sx_cmp (bcompare a a)]))
+  | _ -> raise (Bad "alg args")
+let run_split args = match args with
+  | [s; e; b] -> with_panic (fun emit ->
+      let pr (x, y) = L [an x; an y] in
+      emit (L (A "sp" :: List.map pr (ok (split_by_len (num s) (num e) (num b)))));
+      emit (L (A "rsp" :: List.map pr (ok (rsplit_by_len w64 (num s) (num e) (num b))))))
+  | _ -> raise (Bad "split args")
+let run_merge args = match args with
+  | [recs] -> with_panic (fun emit ->
+      let l = List.map brec_of (tagged "recs" recs) in
+      let gs = ok (merge_groups l) in
+      emit (L (A "groups" :: List.map (fun g -> L (List.map (fun r -> az r.b_val) g)) gs));
+      emit (L (A "ranges" :: List.map (fun ((c, s), e) -> L [sx_chr c; an s; an e]) (ok (merge_sorted_bed l)))))
+  | _ -> raise (Bad "merge args")
+let run_bg args = match args with
+  | [recs] -> with_panic (fun emit ->
+      let l = List.map brec_of (tagged "recs" recs) in
+      emit (L (A "out" :: List.map (fun r -> L [sx_chr r.b_chr; an r.b_st; an r.b_en; az r.b_val]) (ok (merge_sorted_bedgraph l)))))
+  | _ -> raise (Bad "bg args")
+
 let run_case (x : sexp) : sexp =
   match x with
   | L (A "lap" :: args) -> run_lap args
+  | L (A "gmap" :: args) -> run_gmap args
+  | L (A "iset" :: args) -> run_iset args
+  | L (A "imap" :: args) -> run_imap args
+  | L (A "cov" :: args) -> run_cov args
+  | L (A "bcov" :: args) -> run_bcov args
+  | L (A "alg" :: args) -> run_alg args
+  | L (A "split" :: args) -> run_split args
+  | L (A "merge" :: args) -> run_merge args
+  | L (A "bg" :: args) -> run_bg args
   | _ -> raise (Bad "unknown case kind")
 
 let () =
